@@ -53,6 +53,8 @@ func (b *Builder) BelongsTo(o interface{}, moduleName string) *BelongsTo {
 	d, valid := o.(*Module)
 	if !valid {
 		b.setErr(fmt.Errorf("belongs-to is only allowed on a sub-module and not %T", o))
+	} else if d.parent == nil {
+		b.setErr(fmt.Errorf("belongs-to is only allowed on a sub-module and not on module %s", d.ident))
 	} else {
 		d.belongsTo = belongsTo
 	}
